@@ -70,6 +70,24 @@ def c04(chk):
             (r["ev"], r.get("outcome"), r.get("origin"), r.get("old_origin"), r.get("reason"), "removed" in r)
             if r["ev"] in ("ap.add", "ap.remove", "ap.remove_id") and (r.get("outcome") != "new") else None))
     sample_events(chk, s1, ("ap.add", "ap.remove_id", "obs.event"))
+    # (b) several OS threads on the real ActivePeers with real connections; linearised by the
+    # sequence number taken under the lock
+    st = harness("apstress", seed=chk.seed, runs=4 if quick(chk) else 60, threads=6, ops=150 if quick(chk) else 300,
+                 out=os.path.join(vlib.WORK, "C04_apstress"))
+    res = vlib.tlc_trace("ApTrace.tla", "ApTrace.cfg", st["trace"], timeout=3000)
+    chk.traces += len(st["runs"])
+    chk.trace_states += res["states"]
+    chk.parts.setdefault("traces", []).append({"scenario": "apstress", "runs": len(st["runs"]), "events": res["lines"]})
+    if res.get("error"):
+        chk.tool_errors.append(f"apstress trace: {res['error']} {res.get('tail', '')}")
+    elif not res["ok"]:
+        rec = vlib.read_trace(st["trace"])[res["rejected_line"] - 1]
+        chk.violation(f"apstress:{rec.get('ev')}",
+                      f"multi-thread history of ActivePeers is not linearisable to the specification at line "
+                      f"{res['rejected_line']}: {json.dumps(rec)[:400]}", {"trace": st["trace"], "record": rec})
+    for r in st["runs"]:
+        if r["dup_listing"]:
+            chk.violation("apstress:dup_listing", f"peers() returned a duplicate (seed {r['seed']})", r)
     if not quick(chk):
         spec_mutant(chk, "remove_by_peer", "MC_Conn.tla", "MC_Conn_quick.cfg", [MUT_REMOVE_BY_PEER])
         spec_mutant(chk, "no_lost_on_replace", "MC_Conn.tla", "MC_Conn_quick.cfg", [MUT_NO_LOST_ON_REPLACE])
